@@ -78,6 +78,23 @@ Definition LayerWellFormed (es : list entry) : Prop :=
     (parent (e_path e) <> [] -> exists d, In d pre /\ is_dir d = true /\ e_path d = parent (e_path e)) /\
     (forall d, In d pre -> e_path d <> e_path e).
 
+(* "self-contained": a hard-link entry names a non-directory written EARLIER IN THE
+   SAME LAYER (a layer whose link points into another layer cannot be unpacked on
+   its own, even when the layers applied in order happen to work) *)
+Fixpoint links_inside_from (seen : list entry) (es : list entry) : bool :=
+  match es with
+  | [] => true
+  | e :: r =>
+      (match e_kind e with
+       | KLink => existsb (fun t => negb (is_dir t) && path_eqb (e_path t) (split_slash (e_link e))) seen
+       | _ => true
+       end) && links_inside_from (e :: seen) r
+  end.
+
+Definition LayerLinksInside (es : list entry) : Prop :=
+  forall pre x post, es = pre ++ x :: post -> e_kind x = KLink ->
+    exists t, In t pre /\ e_path t = split_slash (e_link x) /\ is_dir t = false.
+
 (* The envelope of splitLayers' input: what fs.WalkDir over a tree yields —
    paths strictly increasing in the fixed order (component-wise, bytewise), no
    entry for the root, and a directory entry for the parent of every entry
@@ -101,7 +118,8 @@ Definition LinksWithTarget (own : path -> option string) (es : list entry) : Pro
 (* [single]: the entries of the single-layer build of the same filesystem.
    Applying the layers in order gives the same filesystem; every non-directory
    entry is in exactly the layer of its owner (or the top layer), once, unchanged;
-   every layer is well formed; there is one layer per group plus the top layer. *)
+   every layer is well formed; there is one layer per group plus the top layer;
+   every hard link's target is an earlier non-directory of the link's own layer. *)
 Definition LayersOk (gs : list (list string)) (own : path -> option string)
     (single : list entry) (layers : list (list entry)) : Prop :=
   (exists a b, extract (List.concat layers) = Ok a /\ extract single = Ok b /\ canon_forest a = canon_forest b) /\
@@ -109,7 +127,8 @@ Definition LayersOk (gs : list (list string)) (own : path -> option string)
      filter nondir (nth i layers []) =
      filter (fun e => nondir e && option_eqb Nat.eqb (layer_index gs own (e_path e)) (Some i)) single) /\
   Forall LayerWellFormed layers /\
-  List.length layers = S (List.length gs).
+  List.length layers = S (List.length gs) /\
+  Forall LayerLinksInside layers.
 
 Fixpoint seqn (n : nat) : list nat := match n with O => [] | S k => seqn k ++ [k] end.
 
@@ -125,4 +144,5 @@ Definition layers_tags (gs : list (list string)) (own : path -> option string)
         (filter (fun e => nondir e && option_eqb Nat.eqb (layer_index gs own (e_path e)) (Some i)) single))
       (seqn (List.length layers)))) "viol:file-not-exactly-once-in-its-owners-layer" ++
   tag_if (negb (forallb (wellformed_from []) layers)) "viol:layer-parent-dir-missing-or-duplicate-path" ++
-  tag_if (negb (Nat.eqb (List.length layers) (S (List.length gs)))) "viol:layer-count".
+  tag_if (negb (Nat.eqb (List.length layers) (S (List.length gs)))) "viol:layer-count" ++
+  tag_if (negb (forallb (links_inside_from []) layers)) "viol:hardlink-target-not-earlier-in-its-layer".
